@@ -247,3 +247,10 @@ Example duration_examples :
   timedelta_to_duration (3 * 86400 + 4 * 3600 + 5 * 60 + 6) = [80;51;68;84;52;72;53;77;54;83] /\
   timedelta_to_duration 3600 = [80;84;54;48;77] /\ timedelta_to_duration 60 = [80;84;54;48;83].
 Proof. repeat split; vm_compute; reflexivity. Qed.
+
+(* two different whole-second durations are never written as the same text *)
+Theorem duration_text_injective a b : 0 <= a -> 0 <= b -> timedelta_to_duration a = timedelta_to_duration b -> a = b.
+Proof.
+  intros Ha Hb E. pose proof (duration_roundtrip a Ha) as Ra. pose proof (duration_roundtrip b Hb) as Rb.
+  rewrite E in Ra. rewrite Ra in Rb. congruence.
+Qed.
